@@ -7,7 +7,9 @@ from .. import llvmref as L
 from ..core import Discard, Stats, hyp_search, open_finding_ids, subseed
 
 PID = "C08"
-TARGETS = ("riscv", "riscv:rvc", "riscv:rvf", "x86_64", "arm", "arm:thumb")
+TARGETS_R1 = ("riscv", "riscv:rvc", "riscv:rvf", "x86_64", "arm", "arm:thumb")
+TARGETS_R2 = ("msp430", "avr", "mips", "m68k")  # round 2: strict comparison, positional decoding
+TARGETS = TARGETS_R1 + TARGETS_R2
 RULE = (
     "for riscv, riscv:rvc, riscv:rvf, x86_64, arm and arm:thumb every instruction class with a syntax (data "
     "directives db/dw/dd/... excluded) is instantiated by Hypothesis from syntax.formal_arguments (all "
@@ -164,6 +166,15 @@ KF_THUMB_HALF = "C08-KF11"  # thumb ldrh/strh print the raw imm5 field / strh sh
 KF_ARM_SHIFT0 = "C08-KF12"  # ARM 'lsr 0' / 'asr 0' encode imm5 = 0, which means a shift by 32
 KF_THUMB_SPNEG = "C08-KF13"  # thumb sp-relative ldr/str/add/sub: out-of-range operand is or-ed into the opcode
 
+KF_MSP_CGIDX = "C08-KF14"  # msp430 X(R3) source: index word emitted although As=01/R3 is the constant #1
+KF_AVR_CALL = "C08-KF15"  # avr 'call label' is encoded as RCALL
+KF_MIPS_JR = "C08-KF16"  # mips jr / jalr: 'patters' typo, the encoding is the all-zero word
+KF_MIPS_SHIFTV = "C08-KF17"  # mips sllv/srlv/srav print rd, rs, rt; the architecture's order is rd, rt, rs
+KF_MIPS_NOP = "C08-KF18"  # mips nop is add $0,$0,$0 instead of the architectural sll $0,$0,0
+KF_M68K_SUB = "C08-KF19"  # m68k subb/subw/subl carry the ADD opcode
+KF_M68K_IMM32 = "C08-KF20"  # m68k long-sized #imm operands get a 16-bit extension word
+KF_M68K_EOR_AN = "C08-KF21"  # m68k 'eor Dn, An' is the CMPM encoding
+
 _COPIED = {("riscv", "bge_ins#2"): "ble", ("arm:thumb", "lsr_ins#2"): "asr"}
 _X86_HIGH = {"ah": "spl", "ch": "bpl", "dh": "sil", "bh": "dil"}
 
@@ -271,13 +282,56 @@ def classify(case, msg):
     st, detail, diff = judge(case["target"], text, data, dec)
     if st != "fail" or detail != msg:
         return None
-    return explain(case, text, data, diff)
+    return explain(case, text, data, diff, dec)
 
 
-def explain(desc, text, data, diff):
+_M68K_LONG_IMM = ("Addl", "Andl", "Cmpl", "Orl", "Subl", "Moveal", "Movel")
+
+
+def explain_r2(desc, text, data, diff, dec):
+    """Round-2 targets: input-feature predicate AND model of the wrong output, per finding."""
+    target, cid = desc["target"], desc["cls"]
+    if target == "msp430" and diff[0] == "count" and diff[1:] == (1, 2) and len(data) >= 4:
+        w = data[0] | (data[1] << 8)
+        fmt2 = w & 0xFC00 == 0x1000  # single-operand format: the register is in bits 3..0
+        reg, As = (w & 15, (w >> 4) & 3) if fmt2 else ((w >> 8) & 15, (w >> 4) & 3)
+        if _has_ctor(desc["args"], ("MemSrcOffset",)) and reg == 3 and As == 1:
+            # model: the core takes As=01/R3 as the constant #1 (no index word), so the index word ppci
+            # emitted is fetched as the next instruction
+            ref = L.norm_ref(target, dec[:1]) if dec else None
+            if ref and ("i", 1) in ref[0][1][:1]:
+                return KF_MSP_CGIDX
+    if target == "avr" and cid == "Call" and diff[0] == "mnemonic" and diff[2:] == ("call", "rcall"):
+        return KF_AVR_CALL
+    if target == "mips":
+        if cid in ("Jr", "Jalr") and diff[0] == "mnemonic" and diff[3] == "sll" and data == b"\0\0\0\0":
+            return KF_MIPS_JR
+        if cid == "Nop" and diff[0] == "mnemonic" and diff[2:] == ("sll", "add") and data == bytes.fromhex("20000000"):
+            return KF_MIPS_NOP
+        if cid in ("Sllv", "Srlv", "Srav") and diff[0] == "operand" and dec:
+            a, b = L.norm_ppci(target, text), L.norm_ref(target, dec)
+            # model: the fields are right (rs = amount) but printed in field order rd, rs, rt
+            if a and b and len(a[0][1]) == 3 and (a[0][1][0], a[0][1][2], a[0][1][1]) == b[0][1]:
+                return KF_MIPS_SHIFTV
+    if target == "m68k":
+        if cid in ("Subb", "Subw", "Subl") and diff[0] == "mnemonic" and diff[2:] == ("sub." + cid[-1], "add." + cid[-1]):
+            return KF_M68K_SUB
+        if cid in ("Eorb", "Eorw", "Eorl") and diff[0] == "mnemonic" and diff[2:] == ("eor." + cid[-1], "cmpm." + cid[-1]):
+            if _has_ctor(desc["args"], ("AddressRegEa",)):
+                return KF_M68K_EOR_AN
+        if cid in _M68K_LONG_IMM and diff[0] == "length" and diff[2] == diff[1] + 2 and _has_ctor(desc["args"], ("ImmediateEa",)):
+            return KF_M68K_IMM32  # model: exactly one 16-bit word is missing from the 32-bit immediate
+    return None
+
+
+def explain(desc, text, data, diff, dec=None):
     target = desc["target"]
     fam = _family(target)
     cid = desc["cls"]
+    if target in TARGETS_R2:
+        kf = explain_r2(desc, text, data, diff, dec)
+        if kf:
+            return kf
     if diff[0] == "operand":
         x, y = diff[3], diff[4]
         if x[0] == "i" and y[0] == "i":
@@ -361,6 +415,9 @@ def _reg_filter_for(target, cid):
         out = list(ids)
         if target == "x86_64" and rcls.__name__ == "Register8":
             out = [i for i in ids if i not in _X86_HIGH]
+        elif target == "msp430":
+            if len(path) >= 2 and path[-2] == "MemSrcOffset":
+                out = [i for i in ids if i != "r3"]  # KF14
         elif target == "riscv:rvc" and cid in ("CMovr", "CJalr", "CJr", "CLui", "CLwsp", "CSlli", "CLi", "CAddi"):
             out = [i for i in ids if i != "x0" and not (cid == "CLui" and i == "x2")]  # KF5
         elif target == "riscv:rvc":
@@ -395,7 +452,34 @@ def _int_filter_for(target, cid):
     return filt
 
 
+def ctor_exclusions(target, cid):
+    """{constructor name: finding} of the addressing-mode constructors kept out of the class."""
+    if target == "m68k" and cid in _M68K_LONG_IMM:
+        return {"ImmediateEa": KF_M68K_IMM32}
+    if target == "m68k" and cid in ("Eorb", "Eorw", "Eorl"):
+        return {"AddressRegEa": KF_M68K_EOR_AN}
+    return {}
+
+
+def class_exclusion_r2(target, cid):
+    cls = G.class_by_id(target, cid)
+    if target == "avr" and cid == "Call" and G.mnemonic(cls) == "call" and getattr(cls, "patterns", {}).get("n3") == 0xD:
+        return KF_AVR_CALL  # n3 = 0xD is RCALL (1101 kkkk kkkk kkkk)
+    if target == "mips":
+        if cid in ("Jr", "Jalr") and not getattr(cls, "patterns", None) and getattr(cls, "patters", None):
+            return KF_MIPS_JR
+        if cid in ("Sllv", "Srlv", "Srav") and [fa._name for fa in cls.syntax.formal_arguments] == ["rd", "rs", "rt"]:
+            return KF_MIPS_SHIFTV
+        if cid == "Nop" and _final({"target": target, "cls": cid, "args": []}) == bytes.fromhex("20000000"):
+            return KF_MIPS_NOP
+    if target == "m68k" and cid in ("Subb", "Subw", "Subl") and getattr(cls, "patterns", {}).get("opcode") == 0b1101:
+        return KF_M68K_SUB
+    return None
+
+
 def class_exclusion(target, cid):
+    if target in TARGETS_R2:
+        return class_exclusion_r2(target, cid)
     fam = _family(target)
     if (fam, cid) in _COPIED:
         try:
@@ -451,8 +535,12 @@ def _worker(arg):
                 cases.append((desc, text, data))
             return None
 
+        xc = {c: k for c, k in ctor_exclusions(target, cid).items() if k in open_ids}
+        for k_ in xc.values():
+            stats.excluded[k_] += 1
         strat = G.args_strategy(
-            target, cid, canonical=True, reg_filter=_reg_filter_for(target, cid), int_filter=_int_filter_for(target, cid)
+            target, cid, canonical=True, reg_filter=_reg_filter_for(target, cid), int_filter=_int_filter_for(target, cid),
+            exclude_ctors=frozenset(xc),
         )
         hyp_search(strat, prop, n, subseed(seed, cid), stats)
     # deterministic register sweep (every register in every register field, one field at a time,
@@ -479,9 +567,16 @@ def _worker(arg):
                 form_count[n_] += 1
         else:
             alts = None
-        for desc in G.sweep_descs(target, cid, reg_filter=_reg_filter_for(target, cid), alternatives=alts):
+        xc = {c: k for c, k in ctor_exclusions(target, cid).items() if k in open_ids}
+        descs = G.sweep_descs(target, cid, reg_filter=_reg_filter_for(target, cid), alternatives=alts)
+        if target in TARGETS_R2:
+            # every value of the small int domains (msp430 constant-generator sources #-1/0/1/2/4/8)
+            descs = list(descs) + list(G.small_int_descs(target, cid, int_filter=_int_filter_for(target, cid)))
+        for desc in descs:
             key = G.key_of(desc)
             if key in seen:
+                continue
+            if xc and _has_ctor(desc["args"], tuple(xc)):
                 continue
             try:
                 ins, text, data = prepare(desc)
@@ -493,6 +588,9 @@ def _worker(arg):
     stats.hist["%s/register sweep instances" % target] += len(cases) - nrandom
     sources = []
     decoded = L.reference_decode(target, [c[2] for c in cases], sources=sources) if cases else []
+    for k_, v_ in L.CRASHES.items():
+        stats.hist["reference tool: %s" % k_] += v_
+    L.CRASHES.clear()
     per_class = collections.Counter()
     for (desc, text, data), dec, src in zip(cases, decoded, sources):
         st, detail, diff = judge(target, text, data, dec)
@@ -505,7 +603,7 @@ def _worker(arg):
         stats.case(G.key_of(desc), nt and st != "unverifiable", {"case": desc, "text": text, "bytes": data.hex()} if st == "ok" and nt else None,
                    classes=("%s/%s" % (target, st if st != "unverifiable" else "unverifiable:" + detail),))
         if st == "fail":
-            kf = explain(desc, text, data, diff)
+            kf = explain(desc, text, data, diff, dec)
             if kf and kf in open_ids:
                 stats.known[kf] += 1
             elif per_class[desc["cls"]] < 2:
@@ -520,10 +618,22 @@ def run(ctx):
     G.preload()
     tasks = []
     for target in TARGETS:
-        nchunks = 4 if target == "x86_64" else 2
+        nchunks = 4 if target == "x86_64" else (1 if target == "mips" else 2)
         for k in range(nchunks):
             tasks.append((target, k, nchunks, subseed(ctx.seed, PID, target, k), per_target))
     tasks.sort(key=lambda t: 0 if t[0] == "x86_64" else 1)
     ctx.pmap(_worker, tasks)
     ctx.extra["targets_covered"] = list(TARGETS)
-    ctx.extra["targets_not_covered"] = ["msp430", "avr", "mips", "m68k (normalisers not built)", "or1k", "xtensa", "microblaze", "stm8", "mcs6500 (no reference decoder)"]
+    ctx.extra["targets_not_covered"] = ["or1k", "xtensa", "microblaze", "stm8", "mcs6500 (no reference decoder)"]
+    # unverifiable fraction per target (instances the decoders / normalisers could not judge)
+    frac = {}
+    for target in TARGETS:
+        tot = unv = 0
+        for k, v in ctx.stats.hist.items():
+            if k.startswith(target + "/") and k.split("/", 1)[1].split(":")[0] in ("ok", "fail", "unverifiable"):
+                tot += v
+                if k.split("/", 1)[1].startswith("unverifiable"):
+                    unv += v
+        if tot:
+            frac[target] = {"instances": tot, "unverifiable": unv, "fraction": round(unv / tot, 4)}
+    ctx.extra["unverifiable_per_target"] = frac
